@@ -78,6 +78,21 @@ func ppHasHooks(repo string) bool {
 	return err == nil && bytes.Contains(b, []byte("VerifSetScheduler"))
 }
 
+// cleanStaleBins removes the per-process binaries of processes that no longer exist
+func cleanStaleBins(dir, prefix string) {
+	es, _ := os.ReadDir(dir)
+	for _, e := range es {
+		n := e.Name()
+		if !strings.HasPrefix(n, prefix) {
+			continue
+		}
+		pid := n[len(prefix):]
+		if _, err := os.Stat("/proc/" + pid); err != nil {
+			os.Remove(filepath.Join(dir, n))
+		}
+	}
+}
+
 func ppBinary() (string, string) {
 	ppBinOnce.Do(func() {
 		root := os.Getenv("VERIF_ROOT")
@@ -90,8 +105,10 @@ func ppBinary() (string, string) {
 		}
 		dir := filepath.Join(root, ".build", "sched", fmt.Sprintf("%x", sha1.Sum([]byte(repo)))[:12])
 		os.MkdirAll(dir, 0o755)
-		out := filepath.Join(dir, "schedbin")
-		os.Remove(out) // never a stale binary; the go build cache makes this cheap on an unchanged tree
+		// a binary of this process's own (never a stale one; the go build cache makes this cheap on an unchanged tree; another
+		// check of the same tree may be running ITS binary right now, so nothing shared is removed or replaced)
+		cleanStaleBins(dir, "schedbin.")
+		out := filepath.Join(dir, fmt.Sprintf("schedbin.%d", os.Getpid()))
 		tags := "verif"
 		if ppHasHooks(repo) {
 			tags = "verif verifsched"
